@@ -142,6 +142,12 @@ func (fe *FnEnc) instr(ins ssa.Instruction) {
 	case *ssa.Range:
 		v := fe.val(x.X)
 		fe.vals[x] = Val{T: x.Type(), Tup: []Val{v}} // iterator remembers the collection
+		if v.Map != nil {
+			// ghost set of keys already produced by this iteration (visited(k) in loop invariants)
+			gk, srt := fe.iterKey(x, v.Map)
+			fe.mem.ghost[gk] = fe.s.name("it", srt, "((as const "+srt+") false)")
+			fe.recordMod([]string{"ghost:" + gk})
+		}
 	case *ssa.Next:
 		fe.vals[x] = fe.next(x)
 	case *ssa.SliceToArrayPointer:
@@ -428,6 +434,10 @@ func (fe *FnEnc) bitop(op token.Token, at, bt string, w int, signed bool) string
 			s.axioms = append(s.axioms, fmt.Sprintf("(assert (forall ((a Int) (b Int)) (! (=> (and (<= 0 a) (<= 0 b)) (and (<= 0 (%s a b)) (<= (%s a b) a) (<= (%s a b) b))) :pattern ((%s a b)))))", fn, fn, fn, fn))
 		case token.OR:
 			s.axioms = append(s.axioms, fmt.Sprintf("(assert (forall ((a Int) (b Int)) (! (=> (and (<= 0 a) (<= 0 b)) (and (>= (%s a b) a) (>= (%s a b) b) (<= (%s a b) (+ a b)))) :pattern ((%s a b)))))", fn, fn, fn, fn))
+			// disjoint operands: a multiple of 2^k OR-ed with a value below 2^k is their sum ((i << k) | j)
+			for k := 1; k <= 32; k++ {
+				s.axioms = append(s.axioms, fmt.Sprintf("(assert (forall ((a Int) (b Int)) (! (=> (and (<= 0 a) (<= 0 b) (= (mod a %s) 0) (< b %s)) (= (%s a b) (+ a b))) :pattern ((%s a b)))))", pow2s(k), pow2s(k), fn, fn))
+			}
 		case token.XOR:
 			s.axioms = append(s.axioms, fmt.Sprintf("(assert (forall ((a Int) (b Int)) (! (=> (and (<= 0 a) (<= 0 b)) (and (<= 0 (%s a b)) (<= (%s a b) (+ a b)))) :pattern ((%s a b)))))", fn, fn, fn))
 		case token.AND_NOT:
@@ -1006,6 +1016,19 @@ func (fe *FnEnc) next(x *ssa.Next) Val {
 		k := s.fresh("nxk", ks)
 		s.assumeRange(m.T.Key(), k)
 		s.assert("(=> " + ok + " (and (not " + s.mapPart(ks, vs, "mnil", cur) + ") (select " + s.mapPart(ks, vs, "mhas", cur) + " " + k + ")))")
+		if rg, isRange := x.Iter.(*ssa.Range); isRange {
+			// every key is produced at most once; the iteration ends only when every key still present
+			// has been produced (Go: entries removed before being reached are not produced)
+			gk, srt := fe.iterKey(rg, m)
+			done := s.ghostGet(fe.mem, gk, srt)
+			s.assert("(=> " + ok + " (not (select " + done + " " + k + ")))")
+			s.nq++
+			q := fmt.Sprintf("itq%d", s.nq)
+			has := "(select " + s.mapPart(ks, vs, "mhas", cur) + " " + q + ")"
+			s.assert("(=> (not " + ok + ") (forall ((" + q + " " + ks + ")) (! (=> (and (not " + s.mapPart(ks, vs, "mnil", cur) + ") " + has + ") (select " + done + " " + q + ")) :pattern (" + has + ") :pattern ((select " + done + " " + q + ")))))")
+			fe.mem.ghost[gk] = s.name("it", srt, "(ite "+ok+" (store "+done+" "+k+" true) "+done+")")
+			fe.recordMod([]string{"ghost:" + gk})
+		}
 		v := s.name("nxv", vs, "(select "+s.mapPart(ks, vs, "mval", cur)+" "+k+")")
 		s.assumeRange(m.T.Elem(), v)
 		fe.s.note("map range in %s: body verified for an arbitrary present key (havoc form)", fe.fnName())
@@ -1013,6 +1036,14 @@ func (fe *FnEnc) next(x *ssa.Next) Val {
 	}
 	fe.unsupported("range over %v", x.Iter.Type())
 	return Val{T: x.Type(), Tup: []Val{{T: types.Typ[types.Bool], Term: ok}, fe.freshVal("nk", tup.At(1).Type()), fe.freshVal("nv", tup.At(2).Type())}}
+}
+
+// iterKey names the ghost "produced keys" set of a range-over-map iteration.
+func (fe *FnEnc) iterKey(x *ssa.Range, m *MapV) (string, string) {
+	gk := "iter_" + mangle(fe.fn.Name()) + "_" + x.Name()
+	srt := "(Array " + fe.s.sortOf(m.T.Key()) + " Bool)"
+	fe.g.ghostSorts[gk] = srt
+	return gk, srt
 }
 
 func (fe *FnEnc) explicitPanic(x *ssa.Panic) {
